@@ -189,6 +189,8 @@ pub struct Ctx {
     pub reprs: HashMap<Vec<U>, Vec<u32>>,
     pub dense_ctr: u64,
     pub adv_atoms: Vec<u32>,
+    /// incremented whenever a symbolic scalar is given its positional encoding (= a NAF is being computed)
+    pub epoch: u64,
 }
 
 thread_local! {
@@ -246,6 +248,7 @@ pub fn reset(cfg: RunCfg) {
             reprs: HashMap::new(),
             dense_ctr: 0,
             adv_atoms: vec![],
+            epoch: 0,
             cfg,
         });
         for w in 0..ctx.cfg.n_worlds {
